@@ -408,7 +408,7 @@ def std_scalars(ctx, cur):
     return out
 
 
-INVALID = ["off-curve-y+1", "off-curve-x+1", "x>=p", "y>=p", "zero-zero", "other-curve", "infinity-encoding", "seed-garbage", "valid-control"]
+INVALID = ["x+p-small-x", "off-curve-y+1", "off-curve-x+1", "x>=p", "y>=p", "zero-zero", "other-curve", "infinity-encoding", "seed-garbage", "valid-control"]
 
 
 def invalid_case(ctx, o, cur, kind):
@@ -416,7 +416,19 @@ def invalid_case(ctx, o, cur, kind):
     p = cv.p
     size = cur.verifying_key_length // 2
     Q = cv.mul(5 + len(cur.name), cv.g)
-    if kind == "off-curve-y+1":
+    if kind == "x+p-small-x":
+        # X = x + p for a curve point with tiny x: out of range, but congruent to a valid coordinate
+        from .c19 import sqrt_mod
+        xs = 1
+        while True:
+            roots = sqrt_mod((xs ** 3 + cv.a * xs + cv.b) % p, p)
+            if roots:
+                break
+            xs += 1
+        x, y = xs + p, roots[0]
+        if x >= 1 << (8 * size):
+            return Outcome("not-encodable", False)
+    elif kind == "off-curve-y+1":
         x, y = Q[0], (Q[1] + 1) % p
     elif kind == "off-curve-x+1":
         x, y = (Q[0] + 1) % p, Q[1]
